@@ -385,6 +385,10 @@ def local_defs(func, name):
             out.append((n, n.value))
         elif isinstance(n, ast.ExceptHandler) and n.name == name:
             out.append((n, n))
+        elif isinstance(n, ast.comprehension):
+            for e in ast.walk(n.target):
+                if isinstance(e, ast.Name) and e.id == name:
+                    out.append((n, n.iter))
     return out
 
 
